@@ -323,7 +323,7 @@ def checks():
     return [
         HypCheck(
             'trees', cases, run_case,
-            budget={'quick': (16, 60), 'thorough': (16, 4000)},
+            budget={'quick': (16, 150), 'thorough': (16, 4000)},
             rule='trees with 0-4 changes x 0-4 files; per file a diff '
                  'assembled from generated hunks with known +/- counts '
                  '(garbage between hunks, LF or CRLF, explicit or implicit '
